@@ -8,7 +8,7 @@
     and log nothing.  What is stated here is the boundary of the two functions
     that did consult special methods before their repair. *)
 Require Import AT.Model.Base AT.Model.Rose AT.Model.Special AT.Model.Nav AT.Model.Resolver AT.Model.Iter.
-Require AT.Proofs.SpecialProofs AT.Proofs.Naturality.
+Require AT.Proofs.SpecialProofs AT.Proofs.Naturality AT.Proofs.NavProofs.
 Import AT.Proofs.SpecialProofs.
 
 (** the iterators never compare, hash or test nodes: for ANY relabelling g of
@@ -44,6 +44,22 @@ Theorem C17_zigzag_natural : forall g f stop ml t,
     | Ok gs => Ok (map (map g) gs) | Err e => Err e | OutOfFuel => OutOfFuel end.
 Proof. exact AT.Proofs.Naturality.zigzag_iter_natural. Qed.
 Print Assumptions C17_zigzag_natural.
+(** ... and so are the navigation attributes: path (for an existing node),
+    descendants, leaves, height *)
+Theorem C17_navigation_natural : forall g t p s,
+  (AT.Proofs.NavProofs.valid t p ->
+   path (AT.Proofs.Naturality.map_tree g t) p
+   = match path t p with Ok l => Ok (map g l) | Err e => Err e | OutOfFuel => OutOfFuel end) /\
+  descendants (AT.Proofs.Naturality.map_tree g s) = map g (descendants s) /\
+  leaves (AT.Proofs.Naturality.map_tree g s) = map g (leaves s) /\
+  height (AT.Proofs.Naturality.map_tree g s) = height s.
+Proof.
+  intros g t p s. split; [apply AT.Proofs.Naturality.path_natural|].
+  split; [apply AT.Proofs.Naturality.descendants_natural|].
+  split; [apply AT.Proofs.Naturality.leaves_natural|apply AT.Proofs.Naturality.height_natural].
+Qed.
+Print Assumptions C17_navigation_natural.
+
 (** the identities of the nodes (their positions) do not depend on the labels *)
 Theorem C17_positions_label_free : forall g t p,
   AT.Model.Nav.children_pos (AT.Proofs.Naturality.map_tree g t) p = AT.Model.Nav.children_pos t p /\
